@@ -294,8 +294,10 @@ class C12(Check):
         self.assumptions.append('F-mode harness: y = k*step exactly representable (integer or dyadic steps), second sample half a step higher; '
                                 'cut at np.ceil: the rest of regrid is covered over the reals')
         import multiprocessing as mp
-        with mp.get_context('fork').Pool(min(9, len(fsteps))) as pool:
-            for exp in pool.imap_unordered(_fp_task, [(st, K, 120000 if quick else 900000) for st in fsteps]):
+        from vf.framework import run_tasks
+        lost = lambda t, why: self.harness_errors.append('levels_fp[step=%s]: no result: %s' % (t[0], why))
+        if True:
+            for exp in run_tasks(_fp_task, [(st, K, 120000 if quick else 900000) for st in fsteps], min(9, len(fsteps)), lost, timeout_s=1200 if quick else 2 * 3600):
                 self.absorb(exp, need_paths=1)
         for f in self.failures:
             if f['harness'].startswith('levels_fp'):
